@@ -13,6 +13,7 @@ global size_of usize == 8;
 //@include prelude/std_contracts.rs
 //@include prelude/list_core_std.rs
 //@include prelude/list_ops_std.rs
+//@include prelude/iter_wrappers.rs
 //@include prelude/blanket_std.rs
 //@include prelude/list_more_std.rs
 
